@@ -18,6 +18,22 @@ def task_ok(t):
     return z3.And(t.flops.t >= 0, t.task_data.t >= 0)
 
 
+def entity_heap_invariant(sv):
+    """Machines have positive speed and bandwidth; tasks have non-negative demands and durations.
+    Established where the objects are created (parse_cluster_config, generate_plan, _generate_ingest_tasks) under the
+    stated assumptions on the configuration; preserved by every function that writes these fields."""
+    H = sv.heap
+    x = ('x', I)
+    return [('machine-speeds-positive', Q([x], lambda x: z3.And(z3.Select(H('Machine', 'cpu'), x) > 0,
+                                                                 z3.Select(H('Machine', 'bandwidth'), x) > 0))),
+            ('task-demands-nonneg', Q([x], lambda x: z3.And(z3.Select(H('Task', 'flops'), x) >= 0,
+                                                            z3.Select(H('Task', 'task_data'), x) >= 0,
+                                                            z3.Select(H('Task', 'duration'), x) >= 0)))]
+
+
+REG.heap_invariants.append(entity_heap_invariant)
+
+
 REG.contract('Task.calculate_runtime',
     params={'machine': 'Machine'},
     requires=lambda c: [('speeds-positive', machine_ok(c.o.machine)), ('demands-nonneg', task_ok(c.o.self))],
@@ -50,7 +66,7 @@ def io_has(c, sv, task, p):
 def wait_requires(c):
     preds = c.o.predecessor_allocations
     return [('bandwidth-positive', c.o.machine.bandwidth.t > 0),
-            ('edge-volumes-known', Q([('p', I)], lambda p: z3.Implies(preds.count(p) > 0,
+            ('assume:edge-volumes-known', Q([('p', I)], lambda p: z3.Implies(preds.count(p) > 0,
                                                                       z3.And(p > 0, io_has(c, c.o, c.o.self, p)))))]
 
 
